@@ -41,8 +41,13 @@ ArgLists ==
     [] Fn \in {"distinct", "reverselist"} -> {<<v>> : v \in Lists \cup (IF Fn = "reverselist" THEN Tuples ELSE {})}
     [] Fn \in {"compact", "sort"} -> {<<v>> : v \in StrLists}
     [] Fn = "zipmap" -> {<<k, v>> : k \in KeyLists, v \in TakeN(Lists, 20) \cup Tuples}
-    [] Fn = "range" -> {<<i>> : i \in Idx} \cup {<<i, j>> : i \in Idx, j \in Idx} \cup {<<i, j, s>> : i \in Idx, j \in Idx, s \in Idx}
-    [] Fn = "coalesce" -> UNION {SeqsUpTo(TakeN(AllVals(t), 4) \cup {Null(t)}, 3) \ {<<>>} : t \in {TNum, TStr, TList(TNum)}}
+    [] Fn = "range" -> {<<NumV(q)>> : q \in {4096, 4100, -4096, -4100, 4092, 4094}}      \* around the documented 1024-value limit
+                       \cup {<<NumV(0), NumV(2048), NumV(2)>>, <<NumV(8192), NumV(0), NumV(-8)>>, <<NumV(4), NumV(4100)>>, <<NumV(4), NumV(4104)>>, <<NumV(0), NumV(2050), NumV(2)>>}
+                       \cup {<<i>> : i \in Idx} \cup {<<i, j>> : i \in Idx, j \in Idx} \cup {<<i, j, s>> : i \in Idx, j \in Idx, s \in Idx}
+    [] Fn = "coalesce" -> {<<x, y>> : x \in {Null(TStr), StrV(<<"a">>), Null(TNum), NumV(4), NumV(6), Null(TBool), BoolV(TRUE), Null(TList(TStr))},
+                                           y \in {Null(TStr), StrV(<<"a">>), Null(TNum), NumV(4), NumV(-2), BoolV(FALSE), Null(TBool), SeqV(TList(TStr), <<>>)}}
+                          \cup {<<Null(TStr), Null(TNum), NumV(8)>>, <<Null(TNum), Null(TNum), StrV(<<"b">>)>>, <<Null(TBool), NumV(4), StrV(<<"b">>)>>}
+                          \cup UNION {SeqsUpTo(TakeN(AllVals(t), 4) \cup {Null(t)}, 3) \ {<<>>} : t \in {TNum, TStr, TList(TNum)}}
     [] Fn = "coalescelist" -> UNION {SeqsUpTo(TakeN(Vals(t, W), 4), 3) \ {<<>>} : t \in {TList(TNum), TList(TStr), TTup(<<>>)}}
                               \cup {<<x, y>> : x \in TakeN(Tuples, 6), y \in TakeN(Tuples, 6)}
     [] Fn \in {"setunion", "setintersection", "setsymmetricdifference"} ->
